@@ -588,15 +588,60 @@ def build_seeds(d):
     return seeds
 
 
-def corrupt_values(f, data):
-    """The enumerated corruptions of one field: 0, 1, max, sign boundaries, +-1 (deduplicated,
-    the original value excluded)."""
+import re as _re
+
+LEN_FIELD = _re.compile(r"(size|sz$|sz\b|namesz|descsz|len|num$|count|blocks|nr_cpus|_num\b|phnum|shnum|entsize|mapnr|num_pages|num_dump_pages)")
+OFF_FIELD = _re.compile(r"(off$|offset|_off\b|phoff|shoff|p_paddr|p_vaddr|pfn|used_device|buffer_size|mem_start|mem_end|sh_info|sh_link|sh_name|strndx)")
+STRUCT_SIZES = (12, 16, 24, 32, 40, 52, 56, 64, 4096)
+
+
+def field_class(f):
+    n = f.name.split(".")[-1]
+    if LEN_FIELD.search(n):
+        return "len"
+    if OFF_FIELD.search(n):
+        return "off"
+    return "other"
+
+
+def wrap_values(f, dense):
+    """Values just below 2^32 and 2^64 (as far as the field is wide enough): 2^b - k, so that
+    field + <size of the enclosing header / name / structure> wraps around to 0..64 in 32-bit or
+    64-bit arithmetic.  dense: every k in 1..64 plus the structure sizes and their +0..64
+    neighbourhoods in steps of 4; otherwise a sparse set."""
+    bits = 8 * f.size
+    ks = set()
+    if dense:
+        ks |= set(range(1, 65))
+        for c in STRUCT_SIZES:
+            ks |= {c + r for r in range(0, 65, 4)}
+    else:
+        ks |= {1, 2, 3, 4, 8, 12, 16, 20, 24, 32, 40, 56, 64, 4096}
+    out = []
+    for b in (32, 64):
+        if b <= bits:
+            for k in sorted(ks):
+                out.append(((1 << b) - k) & ((1 << bits) - 1))
+    if bits == 16:
+        out += [(1 << 16) - k for k in (1, 2, 4, 8, 16, 32, 56, 64)]
+    return out
+
+
+def corrupt_values(f, data, wraps="none"):
+    """The enumerated corruptions of one field: 0, 1, max, sign boundaries, +-1; for length / count /
+    offset fields additionally the near-wrap values (wraps = "dense" | "sparse" | "none"), deduplicated,
+    the original value excluded."""
     bits = 8 * f.size
     orig = f.get(data) if f.off + f.size <= len(data) else 0
     mask = (1 << bits) - 1
     vals = [0, 1, mask, (1 << (bits - 1)) - 1, 1 << (bits - 1), (orig + 1) & mask, (orig - 1) & mask]
+    cls = field_class(f)
+    if wraps != "none" and cls != "other" and f.size >= 2:
+        vals += wrap_values(f, dense=(wraps == "dense" and cls == "len"))
     out = []
+    seen = set()
     for v in vals:
-        if v != orig and v not in out:
+        if v != orig and v not in seen:
+            seen.add(v)
             out.append(v)
     return out
